@@ -42,6 +42,19 @@ def _child(arg):
     return {"out": out, "trace": fsshim.trace() if mode else None, "log": vlog.snapshot()}
 
 
+def _real_process_main():
+    """Entry point of a real interpreter (used under strace): runs the action of scenario <index> on <root>."""
+    import sys
+
+    si, root = int(sys.argv[1]), sys.argv[2]
+    core.setup_repo_path()
+    r = _child((scenarios()[si]["action"], root, None, None, None))
+    sys.exit(0 if r["out"][0] == "ok" else 3)
+
+
+MUTATING = "mkdir,mkdirat,rename,renameat,renameat2,symlink,symlinkat,unlink,unlinkat,write,pwrite64,writev,ftruncate,link,linkat"
+
+
 def SC(name, setup, action, before, after, recover_extra=()):
     return {"name": name, "setup": setup, "action": action, "before": before, "after": after, "recover_extra": list(recover_extra)}
 
@@ -92,6 +105,59 @@ def file_class(rel):
     if parts[-1] == "blobs":
         return "blobs-dir"
     return "other"
+
+
+def _recover(sc, run, rep, tr_value, bad, rkind, rrel, nontriv_key):
+    """R1 loads of previously committed paths, R2 re-evaluation, R3 loads of everything."""
+    ok = True
+    # R1: paths committed before the crashed run: old or new complete value
+    for (path, view), olds in sc["before"].items():
+        r = core.fork_call(_child, (scen.act_load(path, view), run, None, None, None), timeout=120)
+        rep.count("recovery_loads_of_old_paths")
+        allowed = list(olds) + ([sc["after"][(path, view)]] if (path, view) in sc["after"] else [])
+        if isinstance(r, core.JobFailed):
+            rep.inconclusive.append("recovery load worker failed: %r" % (r,))
+        elif r["out"][0] != "ok":
+            bad("load(%s) of a path committed before the crash raises %s(%s)" % (path, r["out"][1], r["out"][2][:120]), "old-path-lost:%s:%s" % (rkind, file_class(rrel)))
+            ok = False
+        elif not any(_eq(r["out"][1], a) for a in allowed):
+            bad("load(%s) of a path committed before the crash returns %s" % (path, _short(r["out"][1])), "old-path-wrong-value:%s:%s" % (rkind, file_class(rrel)))
+            ok = False
+    # optional second crash during recovery
+    # R2: evaluate the same pipeline again
+    expected_action_value = tr_value
+    r = core.fork_call(_child, (sc["action"], run, None, None, None), timeout=120)
+    rep.count("recovery_evaluations")
+    if isinstance(r, core.JobFailed):
+        rep.inconclusive.append("recovery worker failed: %r" % (r,))
+    elif r["out"][0] != "ok":
+        bad("re-evaluation after the crash raises %s(%s)" % (r["out"][1], r["out"][2][:160]), "recovery-raises:%s:%s:%s" % (r["out"][1], rkind, file_class(rrel)))
+        ok = False
+    elif not _eq(r["out"][1], expected_action_value):
+        bad("re-evaluation after the crash returns %s instead of %s" % (_short(r["out"][1]), _short(expected_action_value)), "recovery-wrong-value:%s:%s" % (rkind, file_class(rrel)))
+        ok = False
+    for (act, exp) in sc["recover_extra"]:
+        r = core.fork_call(_child, (act, run, None, None, None), timeout=120)
+        rep.count("recovery_evaluations")
+        if isinstance(r, core.JobFailed):
+            rep.inconclusive.append("recovery worker failed: %r" % (r,))
+        elif r["out"][0] != "ok":
+            bad("%s after the crash raises %s(%s)" % (act.__name__, r["out"][1], r["out"][2][:160]), "recovery-raises:%s:%s:%s" % (r["out"][1], rkind, file_class(rrel)))
+            ok = False
+        elif not _eq(r["out"][1], exp):
+            bad("%s after the crash returns %s" % (act.__name__, _short(r["out"][1])), "recovery-wrong-value:%s:%s" % (rkind, file_class(rrel)))
+            ok = False
+    # R3: every path serves the new value
+    if ok:
+        for (path, view), exp in sc["after"].items():
+            r = core.fork_call(_child, (scen.act_load(path, view), run, None, None, None), timeout=120)
+            rep.count("recovery_loads_after")
+            if isinstance(r, core.JobFailed):
+                rep.inconclusive.append("recovery load worker failed: %r" % (r,))
+            elif r["out"][0] != "ok" or not _eq(r["out"][1], exp):
+                bad("after recovery load(%s) gives %s" % (path, _short(r["out"][1]) if r["out"][0] == "ok" else "%s(%s)" % (r["out"][1], r["out"][2][:100])), "post-recovery-load-wrong:%s:%s" % (rkind, file_class(rrel)))
+        rep.nontriv(nontriv_key)
+    return ok
 
 
 def scenario_job(arg):
@@ -150,57 +216,138 @@ def scenario_job(arg):
             def bad(what, mech):
                 rep.violate("%s, killed before op %d (%s %s): %s" % (sc["name"], n, rkind, rrel if len(rrel) < 70 else rrel[:30] + ".." + rrel[-24:], what), case, mechanism=mech, features=feats)
 
-            ok = True
-            # R1: paths committed before the crashed run: old or new complete value
-            for (path, view), olds in sc["before"].items():
-                r = core.fork_call(_child, (scen.act_load(path, view), run, None, None, None), timeout=120)
-                rep.count("recovery_loads_of_old_paths")
-                allowed = list(olds) + ([sc["after"][(path, view)]] if (path, view) in sc["after"] else [])
-                if isinstance(r, core.JobFailed):
-                    rep.inconclusive.append("recovery load worker failed: %r" % (r,))
-                elif r["out"][0] != "ok":
-                    bad("load(%s) of a path committed before the crash raises %s(%s)" % (path, r["out"][1], r["out"][2][:120]), "old-path-lost:%s:%s" % (rkind, file_class(rrel)))
-                    ok = False
-                elif not any(_eq(r["out"][1], a) for a in allowed):
-                    bad("load(%s) of a path committed before the crash returns %s" % (path, _short(r["out"][1])), "old-path-wrong-value:%s:%s" % (rkind, file_class(rrel)))
-                    ok = False
-            # optional second crash during recovery
-            # R2: evaluate the same pipeline again
-            expected_action_value = tr["out"][1]
-            r = core.fork_call(_child, (sc["action"], run, None, None, None), timeout=120)
-            rep.count("recovery_evaluations")
-            if isinstance(r, core.JobFailed):
-                rep.inconclusive.append("recovery worker failed: %r" % (r,))
-            elif r["out"][0] != "ok":
-                bad("re-evaluation after the crash raises %s(%s)" % (r["out"][1], r["out"][2][:160]), "recovery-raises:%s:%s:%s" % (r["out"][1], rkind, file_class(rrel)))
-                ok = False
-            elif not _eq(r["out"][1], expected_action_value):
-                bad("re-evaluation after the crash returns %s instead of %s" % (_short(r["out"][1]), _short(expected_action_value)), "recovery-wrong-value:%s:%s" % (rkind, file_class(rrel)))
-                ok = False
-            for (act, exp) in sc["recover_extra"]:
-                r = core.fork_call(_child, (act, run, None, None, None), timeout=120)
-                rep.count("recovery_evaluations")
-                if isinstance(r, core.JobFailed):
-                    rep.inconclusive.append("recovery worker failed: %r" % (r,))
-                elif r["out"][0] != "ok":
-                    bad("%s after the crash raises %s(%s)" % (act.__name__, r["out"][1], r["out"][2][:160]), "recovery-raises:%s:%s:%s" % (r["out"][1], rkind, file_class(rrel)))
-                    ok = False
-                elif not _eq(r["out"][1], exp):
-                    bad("%s after the crash returns %s" % (act.__name__, _short(r["out"][1])), "recovery-wrong-value:%s:%s" % (rkind, file_class(rrel)))
-                    ok = False
-            # R3: every path serves the new value
-            if ok:
-                for (path, view), exp in sc["after"].items():
-                    r = core.fork_call(_child, (scen.act_load(path, view), run, None, None, None), timeout=120)
-                    rep.count("recovery_loads_after")
-                    if isinstance(r, core.JobFailed):
-                        rep.inconclusive.append("recovery load worker failed: %r" % (r,))
-                    elif r["out"][0] != "ok" or not _eq(r["out"][1], exp):
-                        bad("after recovery load(%s) gives %s" % (path, _short(r["out"][1]) if r["out"][0] == "ok" else "%s(%s)" % (r["out"][1], r["out"][2][:100])), "post-recovery-load-wrong:%s:%s" % (rkind, file_class(rrel)))
-                rep.nontriv(("c06", sc["name"], n))
+            _recover(sc, run, rep, tr["out"][1], bad, rkind, rrel, ("c06", sc["name"], n))
             shutil.rmtree(run, ignore_errors=True)
     st = rep.extra.pop("_states", set())
     rep.extra.setdefault("distinct_post_crash_states", {})[sc["name"]] = len(st)
+    return rep
+
+
+def double_crash_job(arg):
+    """A second kill during the recovery evaluation (at every boundary of it), then the full recovery."""
+    si, stride, offset = arg
+    sc = scenarios()[si]
+    rep = core.Report("C06", level="fault_enumeration")
+    with core.Scratch("vp_c06d_") as td:
+        tmpl = os.path.join(td, "template")
+        os.makedirs(tmpl)
+        for a in sc["setup"]:
+            r = core.fork_call(_child, (a, tmpl, None, None, None), timeout=120)
+            if isinstance(r, core.JobFailed) or r["out"][0] != "ok":
+                rep.inconclusive.append("%s: setup action failed" % sc["name"])
+                return rep
+        run = os.path.join(td, "run")
+        _copy_store(tmpl, run)
+        tr = core.fork_call(_child, (sc["action"], run, "trace", None, None), timeout=120)
+        shutil.rmtree(run)
+        if isinstance(tr, core.JobFailed) or tr["out"][0] != "ok":
+            rep.inconclusive.append("%s: trace run failed" % sc["name"])
+            return rep
+        M = len(tr["trace"])
+        report = os.path.join(td, "crash_report")
+        crashed = os.path.join(td, "crashed")
+        for n in range(offset, M, stride):
+            _copy_store(tmpl, run)
+            if os.path.exists(report):
+                os.remove(report)
+            core.fork_call(_child, (sc["action"], run, "crash", n, report), timeout=120)
+            if not os.path.exists(report):
+                shutil.rmtree(run)
+                continue
+            kind1 = open(report).read().split("\t")[1]
+            # snapshot of the state left by the first kill; the store always lives at `run` (absolute link targets)
+            os.rename(run, crashed)
+            _copy_store(crashed, run)
+            t2 = core.fork_call(_child, (sc["action"], run, "trace", None, None), timeout=120)
+            shutil.rmtree(run)
+            if isinstance(t2, core.JobFailed):
+                shutil.rmtree(crashed)
+                continue
+            M2 = len(t2["trace"])
+            for n2 in range(M2):
+                _copy_store(crashed, run)
+                if os.path.exists(report):
+                    os.remove(report)
+                core.fork_call(_child, (sc["action"], run, "crash", n2, report), timeout=120)
+                rep.evaluations += 1
+                if not os.path.exists(report):
+                    shutil.rmtree(run)
+                    continue
+                rn, rkind, rrel = open(report).read().rstrip("\n").split("\t")
+                rep.count("double_crash_points")
+                case = {"scenario_index": si, "scenario": sc["name"], "crash_index": n, "second_crash_index": n2, "op": rkind, "path": rrel, "double": True}
+
+                def bad(what, mech, n=n, n2=n2, rkind=rkind, rrel=rrel, case=case):
+                    rep.violate("%s, killed before op %d (%s) and again before op %d of the recovery (%s %s): %s" % (sc["name"], n, kind1, n2, rkind, rrel[-40:], what), case, mechanism="double:" + mech)
+
+                _recover(sc, run, rep, tr["out"][1], bad, rkind, rrel, ("c06d", sc["name"], n, n2))
+                shutil.rmtree(run, ignore_errors=True)
+            shutil.rmtree(crashed, ignore_errors=True)
+    return rep
+
+
+def strace_job(arg):
+    """Real interpreter, real SIGKILL: strace injects SIGKILL on entering the N-th mutating system call."""
+    import subprocess
+    import sys
+
+    si = arg
+    sc = scenarios()[si]
+    rep = core.Report("C06", level="fault_enumeration")
+    if shutil.which("strace") is None:
+        rep.count("strace_unavailable")
+        return rep
+    with core.Scratch("vp_c06s_") as td:
+        tmpl = os.path.join(td, "template")
+        os.makedirs(tmpl)
+        for a in sc["setup"]:
+            r = core.fork_call(_child, (a, tmpl, None, None, None), timeout=120)
+            if isinstance(r, core.JobFailed) or r["out"][0] != "ok":
+                rep.inconclusive.append("%s: setup action failed" % sc["name"])
+                return rep
+        run = os.path.join(td, "run")
+        _copy_store(tmpl, run)
+        tr = core.fork_call(_child, (sc["action"], run, None, None, None), timeout=120)
+        shutil.rmtree(run)
+        if isinstance(tr, core.JobFailed) or tr["out"][0] != "ok":
+            rep.inconclusive.append("%s: plain run failed" % sc["name"])
+            return rep
+        env = dict(os.environ, PYTHONPATH=core.repo_dir() + os.pathsep + core.VERIF_DIR, PYTHONDONTWRITEBYTECODE="1")
+        code = "import sys; sys.path.insert(0, %r); from checks import c06; c06._real_process_main()" % core.VERIF_DIR
+        for n in range(1, 400):
+            _copy_store(tmpl, run)
+            log = os.path.join(td, "strace.log")
+            cmd = ["strace", "-f", "-qq", "-o", log, "-e", "trace=" + MUTATING, "-e", "inject=%s:signal=SIGKILL:when=%d" % (MUTATING, n),
+                   sys.executable, "-c", code, str(si), run]
+            try:
+                r = subprocess.run(cmd, env=env, capture_output=True, text=True, timeout=300, cwd="/")
+            except subprocess.TimeoutExpired:
+                rep.inconclusive.append("%s: strace run timed out" % sc["name"])
+                break
+            rep.evaluations += 1
+            if n == 1 and r.returncode not in (0, 137, -9) and "ptrace" in (r.stderr or "").lower():
+                rep.count("strace_unavailable")
+                break
+            if r.returncode == 0:
+                rep.count("strace_runs_completed_without_kill")
+                shutil.rmtree(run, ignore_errors=True)
+                break
+            last = ""
+            try:
+                lines = [l for l in open(log).read().splitlines() if "(" in l and "+++" not in l]
+                last = lines[-1] if lines else ""
+            except OSError:
+                pass
+            rep.count("real_sigkill_points")
+            sysc = last.split("(")[0].split()[-1] if last else "?"
+            rep.bump("sigkill_syscall", sysc)
+            case = {"scenario_index": si, "scenario": sc["name"], "strace_when": n, "syscall": last[:160]}
+
+            def bad(what, mech, n=n, last=last, case=case):
+                rep.violate("%s, real SIGKILL on entering mutating syscall #%d (%s): %s" % (sc["name"], n, last[:90], what), case, mechanism="sigkill:" + mech)
+
+            _recover(sc, run, rep, tr["out"][1], bad, sysc, "?", ("c06s", sc["name"], n))
+            shutil.rmtree(run, ignore_errors=True)
     return rep
 
 
@@ -219,10 +366,19 @@ def run(tier, seed):
     rep.rule = (
         "scenarios %r; for each, every file-system operation boundary of the action (stat, lstat, readlink, mkdir, open, each half of each write, close, remove, rename, symlink, listdir; counted by a dry run under "
         "the shim) is a crash point: the process is terminated with os._exit(137) right before it, then fresh processes load the previously committed paths, re-evaluate the pipeline and load everything. "
-        "distinct_nontrivial = crash points whose recovery was fully observed and correct." % ([s["name"] for s in scs],)
+        "Thorough adds a second kill at every boundary of the recovery evaluation (for every 4th first crash point) and real SIGKILLs injected by strace on entering "
+        "each mutating system call of a real interpreter process. distinct_nontrivial = crash points whose recovery was fully observed and correct." % ([s["name"] for s in scs],)
     )
     jobs = [(i, None, False) for i in range(len(scs))]
     results = core.fork_map(scenario_job, jobs, timeout=3000)
+    if tier == "thorough":
+        extra = [("double", (i, 4, (seed + i) % 4)) for i in range(len(scs))] + [("strace", i) for i in range(len(scs))]
+        ex = core.fork_map(lambda j: {"double": double_crash_job, "strace": strace_job}[j[0]](j[1]), extra, timeout=3300)
+        for j, r in zip(extra, ex):
+            if isinstance(r, core.JobFailed):
+                rep.inconclusive.append("%s job of %s: %r" % (j[0], scs[j[1] if j[0] == "strace" else j[1][0]]["name"], r))
+            else:
+                rep.merge(r)
     total_ops = 0
     for j, r in zip(jobs, results):
         if isinstance(r, core.JobFailed):
@@ -245,5 +401,11 @@ def run(tier, seed):
 def replay(payload):
     rep = core.Report("C06", level="fault_enumeration")
     c = payload["case"]
+    if c.get("double"):
+        rep.merge(double_crash_job((c["scenario_index"], 10 ** 6, c["crash_index"])))
+        return rep
+    if "strace_when" in c:
+        rep.merge(strace_job(c["scenario_index"]))
+        return rep
     rep.merge(scenario_job((c["scenario_index"], [c["crash_index"]], False)))
     return rep
